@@ -14,17 +14,21 @@ build() { gcc -shared -fPIC -O1 -w -DFFI_BUILDING=1 -DUSE__THREAD -DHAVE_SYNC_SY
 DEMO=$OUT/demo.py; RUN="$PY $DEMO $WT"; [ -f $DEMO ] || { DEMO=$OUT/demo.sh; RUN="bash $DEMO $WT"; }
 echo "== build with change"; build || { echo "VERDICT $ID compile-failed"; exit 1; }
 echo "== demo with change"; (cd $OUT && timeout 900 $RUN) ; dw=$?; echo "demo exit with change: $dw"
-echo "== suite with change (parallel part)"
+echo "== suite with change (xdist, everything)"
 cd $WT
-PYTHONPATH=$D:$WT/src timeout 3000 $PY -m pytest -q -p no:cacheprovider --timeout=900 -n 6 src/c testing/cffi0 testing/cffi1 \
-   --ignore=testing/cffi0/test_verify.py --ignore=testing/cffi0/test_verify2.py --ignore=testing/cffi0/test_vgen.py \
-   --ignore=testing/cffi0/test_vgen2.py --ignore=testing/cffi0/test_zdistutils.py 2>&1 | tail -8 | tee $OUT/suite_par.txt
-echo "== suite with change (serial part)"
-PYTHONPATH=$D:$WT/src timeout 3000 $PY -m pytest -q -p no:cacheprovider --timeout=900 testing/cffi0/test_verify.py testing/cffi0/test_verify2.py \
-   testing/cffi0/test_vgen.py testing/cffi0/test_vgen2.py testing/cffi0/test_zdistutils.py 2>&1 | tail -5 | tee $OUT/suite_ser.txt
+PYTHONPATH=$D:$WT/src timeout 5000 $PY -m pytest -q -p no:cacheprovider --timeout=900 -n ${CONFIRM_JOBS:-6} -rf src/c testing/cffi0 testing/cffi1 \
+   2>&1 | tail -60 > $OUT/suite_par.txt
+tail -3 $OUT/suite_par.txt
+grep -oE "^FAILED [^ ]+" $OUT/suite_par.txt | sed 's/^FAILED //' | sort -u > $OUT/suite_failed_ids.txt
+echo "== failures under xdist re-run serially ($(wc -l < $OUT/suite_failed_ids.txt) tests; xdist races on testing/cffi0/__pycache__ are expected)"
+if [ -s $OUT/suite_failed_ids.txt ]; then
+  PYTHONPATH=$D:$WT/src timeout 5000 $PY -m pytest -q -p no:cacheprovider --timeout=900 -p no:xdist $(cat $OUT/suite_failed_ids.txt | tr '\n' ' ') 2>&1 | tail -5 | tee $OUT/suite_ser.txt
+else
+  echo "0 failed (nothing to re-run)" | tee $OUT/suite_ser.txt
+fi
 echo "== demo without change"
 git stash -q; build; (cd $OUT && timeout 900 $RUN); dc=$?; echo "demo exit clean: $dc"; git stash pop -q
 rm -rf $D
-fp=$(grep -hoE "[0-9]+ failed" $OUT/suite_par.txt $OUT/suite_ser.txt | tr '\n' ' ')
-pp=$(grep -hoE "[0-9]+ passed" $OUT/suite_par.txt $OUT/suite_ser.txt | tr '\n' ' ')
-echo "VERDICT $ID demo_with=$dw demo_clean=$dc passed=[$pp] failed=[$fp]"
+xd=$(tail -1 $OUT/suite_par.txt | grep -oE "[0-9]+ (passed|failed)" | tr '\n' ' ')
+sr=$(tail -1 $OUT/suite_ser.txt | grep -oE "[0-9]+ (passed|failed)" | tr '\n' ' ')
+echo "VERDICT $ID demo_with=$dw demo_clean=$dc xdist=[$xd] serial_rerun_of_xdist_failures=[$sr]"
